@@ -789,7 +789,7 @@ func c10ChangeLogIO(p *core.Prog, r *core.Report) {
 		}
 		// truncate-to-last-good before the write unless Stat shows no excess
 		noExcess := func(e *core.Edge) bool {
-			return rw3EdgeImplies(e, func(c ast.Expr, val bool) bool {
+			return core.EdgeEstablishingM3(info, f.Decl.Body, func(c ast.Expr, val bool) bool { // also through `excess := size > good; if excess`
 				be, ok := c.(*ast.BinaryExpr)
 				if !ok {
 					return false
@@ -806,7 +806,7 @@ func c10ChangeLogIO(p *core.Prog, r *core.Report) {
 					return (be.Op == token.LSS && !val) || (be.Op == token.GEQ && val)
 				}
 				return false
-			})
+			})(e)
 		}
 		tns := g.Select(trunc)
 		if r.Check(len(tns) >= 1, rule, name, "Truncate:absent", f.Pos(), "a partial append is truncated away") {
@@ -1070,7 +1070,9 @@ func c10Replay(p *core.Prog, r *core.Report) {
 			}
 			acc = o
 		}
-		r.Check(okRet && nret >= 2 && acc != nil, rule, name, "accumulator-returns:count", f.Pos(), fmt.Sprintf("%d nil-error return(s) (EOF, torn tail) hand back the accumulator (2 confirmed by reading)", nret))
+		// (which errors end in such a return is decided by rule replay-exit-table; EOF and the
+		// torn tail may share one return statement)
+		r.Check(okRet && nret >= 1 && acc != nil, rule, name, "accumulator-returns:count", f.Pos(), fmt.Sprintf("%d nil-error return(s) (EOF, torn tail) hand back the accumulator", nret))
 		_ = sig
 		var loop *rw3Loop
 		for _, s := range rw3TopLoops(f.Decl.Body) {
@@ -1253,6 +1255,11 @@ func c10DropMeasurement(p *core.Prog, r *core.Report) {
 							continue
 						}
 						nok++
+						if _, isConst := core.ConstBool(info, rs.Results[0]); isConst {
+							// `return true, nil` / `return false, nil` on a branch: which branch it is
+							// is decided by the decision table of rule deleted-iff-no-error
+							continue
+						}
 						be, ok := ast.Unparen(rs.Results[0]).(*ast.BinaryExpr)
 						if !ok || be.Op != token.NEQ {
 							r.Bad(rule, name, "deleted-result", g.Line(x), "deleted is not computed as err != abort-sentinel")
